@@ -6,8 +6,8 @@ COQ_PROP = "Properties/C20.v"; COQ_DIRS = ["Common", "Own"]
 COQ_MODULE = "Own.Model"; RUN_FN = "run"
 THEOREMS = ["C20_freed_at_most_once", "C20_no_release_after_free", "C20_release_terminates",
             "C20_all_freed_after_root_release", "C20_user_objects_freed_exactly_once",
-            "C20_checker_sound", "C20_supported_set_never_freed",
-            "C20_model_verdict_forces_release", "C20_reachable_graphs_wf_partial"]
+            "C20_checker_sound", "C20_supported_set_never_freed", "C20_primitives_preserve_wf",
+            "C20_reachable_graphs_wf", "C20_every_simulation_releases_everything", "C20_model_output_all_freed"]
 QUICK_N = 2500; THOROUGH_N = 120000
 XCHECK_N = 30
 RULE = ("scripts = (module tree with nested children, 0..3 gates per module, gate links with/without a queueing channel forming chains, "
@@ -34,7 +34,8 @@ CLAIM = dict(
          "TimerQueue; strong and weak edges; ModuleContext::drop running Gate::dissolve_paths): (1) for every heap and every release sequence no "
          "object is freed twice, and on count-consistent heaps no handle is released after the free; (2) the release machine terminates; (3) for "
          "EVERY graph that is count-consistent, typed by the schema and whose connected gates are listed by a module context (boolean checker "
-         "proved sound), after the roots (Sim, static module context, static event buffer, event set / remaining events, caller-held refs) are "
+         "proved sound; and proved to hold of EVERY graph a scripted simulation reaches at every stopping point, by one preservation lemma per "
+         "builder/runtime operation and induction over the script), after the roots (Sim, static module context, static event buffer, event set / remaining events, caller-held refs) are "
          "released in any order NO object is allocated any more and every object is in the destructor log exactly once - by the type-rank "
          "argument (all strong edges except gate connections descend in (type rank, path length); gate rings are cut by dissolve_paths); in "
          "particular every module state, processing element, task capture and message; (4) conversely a set of objects supporting each other "
@@ -47,9 +48,11 @@ CLAIM = dict(
          "the static buffer) are run on the real crate to every kind of stopping point, dropped, and compared with the extracted model (drop "
          "counts per class, result, remaining events, end time, call log, heap growth); each simulation is run three times in one process, must "
          "behave identically and must not make the live heap grow. Partial.",
-    note="Partial: Rust's reference counting, drop glue and tokio are trusted/validated, not proved; graphs reached by the builder and event "
-         "operations are checked well-formed at run time by the proved-sound checker (reported in the model's output) rather than proved "
-         "well-formed once and for all. Two defects were found and repaired: 6ce5d8e (F14) and 012bc88 (timer slot <-> queue cycle, visible "
+    note="Partial: Rust's reference counting, drop glue and tokio are trusted/validated, not proved. The model touches its heap only through "
+         "seven checked primitives (allocate behind a handle, clone, move into a field, move out, drop, record a Weak) that refuse an edge the "
+         "schema forbids; that they never refuse in practice is what the differential check shows (a refusal would change the counters). End to "
+         "end (C20_every_simulation_releases_everything): for every script the model's verdict is once = created, nothing alive, nothing "
+         "allocated. Two defects were found and repaired: 6ce5d8e (F14) and 012bc88 (timer slot <-> queue cycle, visible "
          "only to the allocator counters); their witnesses are in corpus/C20 and Refuted/C20.v.",
     technique="Coq invariant proof over a worklist release machine (count = in-degree + pending handles), well-founded type-rank descent, "
               "supported-set argument for cycles; differential correspondence check with destructor counters and a counting allocator",
